@@ -10,7 +10,7 @@
    byte-exact generator correspondence and judged on the reference machine. *)
 From Coq Require Import ZArith List String Bool.
 From Gigue Require Import Types Bits Isa Enc GenTables Builder BuilderTies Samplers Generator Machine MachineLemmas
-  SplitProofs FragProofs GenLemmas ImageSem CtorSpec C12Defs C12Proofs GenWF GenWFProps SliceLemmas FloatSign GenWF2 BodyExec BodyBridge GenWF5 FrameExec CodeMem SwitchExec GenWF6 GenWF8 GenWF9 Walk CallFrame MethodContract Witness.
+  SplitProofs FragProofs GenLemmas ImageSem CtorSpec C12Defs C12Proofs GenWF GenWFProps SliceLemmas FloatSign GenWF2 BodyExec BodyBridge GenWF5 FrameExec CodeMem SwitchExec GenWF6 GenWF8 GenWF9 Walk CallFrame MethodContract CallFrameRimi MethodContractRimi Witness.
 Import ListNotations.
 Open Scope Z_scope.
 
@@ -149,6 +149,23 @@ Theorem C02_every_method_contract_partial : forall c script img,
            (steps_method (im_methods img) (max_depth (im_methods img)) id) m.
 Proof. exact every_method_returns. Qed.
 
+(* PROVED (Layer B), both RIMI variants: the method contract along the call graph
+   with the return addresses on the shadow stack (statement and reading:
+   Properties/C09.v, C09_every_rimi_method_contract_partial): every method of
+   every image returns to its caller without any fault in exactly steps_method
+   steps; sp, s0, ra, t3, the data register and every non-usable register are
+   restored; memory changes only in the data image, the main-stack window
+   [sp - need, sp) and the shadow window [t3 - ss_need, t3). *)
+Theorem C02_every_rimi_method_contract_partial : forall c script img,
+  successful c script img -> rimi c ->
+  forall L, rplaced c img L ->
+  forall id m, nth_error (im_methods img) id = Some m ->
+  rcontract c img L (need_method c (im_methods img) (max_depth (im_methods img)) id)
+            (ss_need (im_methods img) (max_depth (im_methods img)) id)
+            (steps_method (im_methods img) (max_depth (im_methods img)) id) m.
+Proof. exact every_rimi_method_returns. Qed.
+
+Print Assumptions C02_every_rimi_method_contract_partial.
 Print Assumptions C02_every_method_contract_partial.
 Print Assumptions C02_leaf_methods_contract_partial.
 Print Assumptions C02_data_reg_never_written.
